@@ -22,7 +22,16 @@ pub fn check_decode(data: &[u8]) -> Result<usize, Fail> {
     let mut it = NVIter::new(data);
     let hint = it.size_hint();
     let mut n = 0usize;
-    for (i, (name, value)) in (&mut it).enumerate() {
+    let mut i = 0usize;
+    loop {
+        // the hint must bound what is still to come at every point of the iteration
+        let h = it.size_hint();
+        let Some((name, value)) = it.next() else { break };
+        let remaining = exp.len().saturating_sub(i);
+        vensure!(h.0 <= remaining && h.1.map_or(true, |u| remaining <= u), "c16-size-hint", "before pair #{i}: size_hint {h:?} but {remaining} more pairs are decoded (input len {})", data.len());
+        let i_cur = i;
+        i += 1;
+        let i = i_cur;
         let Some(&((ns, ne), (vs, ve))) = exp.get(i) else {
             vfail!("c16-extra-pair", "decoder yielded pair #{i} (name {} bytes) but the reference decoder finds only {} complete pairs in {}", name.len(), exp.len(), Hex(data.to_vec()).dbg());
         };
@@ -339,10 +348,14 @@ fn test_oversize(c: &Oversize) -> TestResult {
 pub fn property() -> Property {
     let roundtrip = prop_sub(
         "roundtrip",
-        "generated lists of 0..8 pairs, lengths biased to 0,1,126..130,65534..65536,70000+, arbitrary bytes, output vector pre-filled; oracle: independent encoder (byte-exact) and decoders; non-trivial = >=2 pairs with a four-byte length",
+        "generated lists of 0..8 pairs (one case in seven: 20..140 tiny pairs), lengths biased to 0,1,126..130,65534..65536,70000+, arbitrary bytes, output vector pre-filled; oracle: independent encoder (byte-exact) and decoders; non-trivial = >=2 pairs with a four-byte length",
         600_000,
         10_000_000,
-        |_| boxed((proptest::collection::vec((blob_any(), blob_any()), 0..8), 0u16..40).prop_map(|(pairs, prefill)| PairList { pairs, prefill })),
+        |_| boxed((prop_oneof![
+            6 => boxed(proptest::collection::vec((blob_any(), blob_any()), 0..8)),
+            // long lists of tiny pairs (iterator bookkeeping over many elements)
+            1 => boxed(proptest::collection::vec((proptest::collection::vec(any::<u8>(), 0..3).prop_map(|v| Blob::Lit(Hex(v))), proptest::collection::vec(any::<u8>(), 0..3).prop_map(|v| Blob::Lit(Hex(v)))), 20..140)),
+        ], 0u16..40).prop_map(|(pairs, prefill)| PairList { pairs, prefill })),
         test_roundtrip,
     );
     let hostile = prop_sub(
